@@ -70,6 +70,7 @@ func v2zero() spec.Assignment { return make(spec.Assignment, len(spec.V2.Metrics
 
 // CheckC05 — v2.0 scores equal the guide equations.
 func CheckC05(r *Report) {
+	ColdStart(r)
 	r.Rule = "E3 scorespace: all 139,968,000 v2.0 metric assignments built through Set (odometer), BaseScore/TemporalScore/EnvironmentalScore must lie in the set of conforming tenths of the exact rational evaluation of the guide equations (both neighbours at exact half-way points, sets propagated through the cascaded roundings), Impact/Exploitability within 1e-9 relative of the exact sub-scores; non-trivial = assignment whose environmental score set differs from its base score set"
 	r.Bound = "complete: every v2.0 metric assignment"
 	var ties, nontrivial, negEnv Counter
